@@ -192,6 +192,56 @@ def run(ck):
             if hits and not bail:
                 probs6.append("%s fails on short input as well as on a mismatch, and its failure at line %s leads to raise() at line %s without "
                               "checking how much input is buffered" % (m[0].replace("Pistache::", ""), t.get("l"), hits[0].get("l")))
+        # a decision on cursor.current() that can end in raise() must know that a character is there: current() yields a sentinel at
+        # the end of the buffer, so either the same condition tests it against Eof, or an eof()/remaining() test with no consuming
+        # call in between dominates it
+        for b in f.blocks.values():
+            t = b.term
+            if not t or t.get("k") not in ("if", "land", "lor", "while") or ("c:" + CUR + "current") not in (t.get("refs") or []):
+                continue
+            if "Eof" in (t.get("cond") or ""):
+                continue
+            # does some arm reach raise() before Again / another consume?
+            hits = []
+            for k, s_ in enumerate(b.succs):
+                if s_ is None:
+                    continue
+
+                def step6b(st, ev):
+                    if again(ev) or (ev["k"] == "call" and (ev.get("callee") or "") in CONSUMERS):
+                        return None
+                    if is_raise(ev):
+                        hits.append(ev)
+                        return None
+                    return st
+                cfg.run_automaton(f, 0, step6b, start=s_)
+            if not hits:
+                continue
+            guarded = False
+            for e_ in f.blocks.values():
+                te = e_.term
+                if not te or ("c:" + CUR + "eof") not in (te.get("refs") or []) and ("c:" + CUR + "remaining") not in (te.get("refs") or []):
+                    continue
+                if e_.id not in dom.get(b.id, ()) or e_.id == b.id:
+                    continue
+                # region between the test and the decision is free of consuming calls
+                seen_, work_, clean = set(), [x for x in e_.succs if x is not None], True
+                while work_:
+                    x = work_.pop()
+                    if x in seen_ or x == b.id or x not in f.blocks:
+                        continue
+                    seen_.add(x)
+                    if b.id not in cfg.reachable_blocks(f, x):
+                        continue
+                    if any(ev["k"] == "call" and (ev.get("callee") or "") in CONSUMERS for ev in f.blocks[x].elems):
+                        clean = False
+                    work_.extend(y for y in f.blocks[x].succs if y is not None)
+                if clean and not any(ev["k"] == "call" and (ev.get("callee") or "") in CONSUMERS for ev in b.elems):
+                    guarded = True
+            if not guarded:
+                probs6.append("the test `%s` at line %s reads cursor.current() without knowing that a character is buffered (no Eof / eof() test since "
+                              "the last consume) and can end in raise() at line %s: a read that ends exactly there turns a valid message into an error"
+                              % ((t.get("cond") or "")[:50], t.get("l"), hits[0].get("l")))
         ck.ob("C01-R6", "%s/errors-independent-of-cut" % short, not probs6, f.loc, f, "; ".join(sorted(set(probs6))[:2]) or
               "no error is raised on a matcher failure that a longer read could turn into a match")
 
